@@ -368,7 +368,7 @@ func fieldsToParams(fl *ast.FieldList, src string, fs *token.FileSet, pfx string
 
 func parseHeader(h string) (*Contract, error) {
 	h = strings.TrimSpace(h)
-	if !strings.HasPrefix(h, "func") {
+	if !strings.HasPrefix(h, "func ") && !strings.HasPrefix(h, "func(") {
 		h = "func " + h
 	}
 	// "func pkg.Name(...)": a contract for a function of another (imported) package
